@@ -62,6 +62,27 @@ pub fn case(t: &mut Tape, scratch: &Scratch) -> CaseResult {
         };
         let out = scratch.0.join("out");
         let _ = std::fs::remove_dir_all(&out);
+        // half of the exports go into a directory that still holds the files of an earlier, larger export
+        // (build scripts write into a directory that is kept between builds)
+        let stale = t.coin();
+        if stale {
+            for ns in p.ns_list() {
+                let Some((locales, _)) = loaded.top(ns.as_deref()) else { continue };
+                for l in locales {
+                    let file = match &ns {
+                        Some(ns) => out.join(ns).join(format!("{}.json", l.name.name)),
+                        None => out.join(format!("{}.json", l.name.name)),
+                    };
+                    if let Some(parent) = file.parent() {
+                        let _ = std::fs::create_dir_all(parent);
+                    }
+                    let mut older: Vec<String> = l.strings.iter().map(|s| s.to_string()).collect();
+                    older.push("a string of the earlier export that was removed since \u{e9}\u{1f600}".to_string());
+                    older.push("\"]".to_string());
+                    let _ = std::fs::write(&file, serde_json::to_string(&older).unwrap_or_default());
+                }
+            }
+        }
         let d2 = dir.clone();
         let o2 = out.clone();
         let r = std::panic::catch_unwind(move || -> Result<(), String> {
@@ -141,7 +162,7 @@ pub fn run(mut ctx: Ctx) -> ! {
          Literal::String(s,i) of every (sub)locale satisfies strings[i]==s; (2) each table, as a set, equals the literal texts the AST \
          yields for that locale's own keys, without duplicates; (3) every nested Locale carries its top locale's table length; \
          (4) TranslationsInfos::get_translations().write_to_dir() writes <ns>/<locale>.json files that parse as JSON arrays equal to \
-         the tables. non-trivial = a table with >=2 strings in a project with a defaulted key, a reference, namespaces, or a string \
+         the tables, into a fresh directory or (half of the cases) over the files of an earlier, larger export. non-trivial = a table with >=2 strings in a project with a defaulted key, a reference, namespaces, or a string \
          needing JSON escapes; distinct = project hash",
         &["the dynamic_load code path that reads the tables at run time is covered by the generated-crate tier"],
         20,
